@@ -14,7 +14,7 @@ def run(tier):
     violations = [{"kind": "broken-proof-obligation", "what": b, "no_failing_input": True, "input": b} for b in po["broken"]]
     import gen
     pinned = set(gen.discount_corpus() + ["DUP3 MLOAD DUP4 MULMOD SWAP2", "DUP3 MLOAD DUP4 ADDMOD SWAP2", "DUP2 MLOAD DUP3 MULMOD"])
-    res = c02.collect(tier, sd + 2000, rng, greedy=True, extra=gen.discount_corpus() + gen.forwarding_corpus() + ["DUP3 MLOAD DUP4 MULMOD SWAP2", "DUP3 MLOAD DUP4 ADDMOD SWAP2", "DUP2 MLOAD DUP3 MULMOD"])
+    res = c02.collect(tier, sd + 2000, rng, greedy=True, extra=gen.discount_corpus() + gen.forwarding_corpus() + gen.tuck_corpus() + ["DUP3 MLOAD DUP4 MULMOD SWAP2", "DUP3 MLOAD DUP4 ADDMOD SWAP2", "DUP2 MLOAD DUP3 MULMOD"])
     c = Counter()
     reqs, meta = [], []
     for t, r, st in res:
@@ -206,7 +206,10 @@ def run(tier):
         t, e = undecided[n]
         b = e["bounds"]
         if n in stack_short and n not in relaxed:
-            violations.append({"kind": "stack-bound-estimate-below-need", "input": " ".join(e["plain"]), "options": t["opts"],
+            # the known finding is the estimate of the heuristic as it stood when the finding was recorded (pinned copy, evaluated on the very
+            # arguments of the call): an infeasible bound that this heuristic does not yield is a different violation
+            same = b.get("stack_estimate_is_pinned_heuristic")
+            violations.append({"kind": "stack-bound-estimate-below-need" if same else "stack-bound-below-need", "input": " ".join(e["plain"]), "options": t["opts"],
                                "what": "no instruction sequence of length <= init_progr_len=%s with stack <= max_sk_sz=%s realizes the specification of %s (%s), "
                                        "exhaustive over its ids and DUP/SWAP/POP; within the same length bound the least stack height of a realizing sequence "
                                        "is %d: the published stack bound (an estimate) is below it" % (b.get("init_progr_len"), b.get("max_sk_sz"), " ".join(e["plain"]), t["opts"], least_peak[n]),
